@@ -63,7 +63,8 @@ def profile(prop):
         p.update(ops={'join': 0.55, 'filter_tables': 0.2,
                       'filter_candset': 0.08, 'apply_matcher': 0.1,
                       'filter_pair': 0.07},
-                 p_missing=0.3, missing_shapes=True, allow_missing=0.7,
+                 p_missing=0.3, p_empty=0.15, missing_shapes=True,
+                 allow_missing=0.7,
                  measures=SET_JOINS + ['EDIT_DISTANCE'], tight=0.1,
                  variants={'drop_missing': 0.5}, outs=0.6)
     elif prop == 'C09':
@@ -190,7 +191,14 @@ def treacherous_pair(rng, measure, max_n):
     return fallback
 
 
-def gen_threshold(rng, measure, prof):
+def gen_threshold(rng, measure, prof, fine=False):
+    if fine and measure in ('JACCARD', 'COSINE', 'DICE') and \
+            rng.random() < 0.3:
+        q = rng.choice([2, 3, 4, 5, 6, 7, 9])
+        d = rng.choice([5, 6])
+        v = round(rng.randint(1, q) / float(q), d) + \
+            rng.choice([-1, 1]) * 10.0 ** -d
+        return min(1.0, max(10.0 ** -d, round(v, d)))
     if measure == 'OVERLAP':
         return rng.choice([1, 1, 2, 2, 3, 4, 5])
     if measure == 'EDIT_DISTANCE':
@@ -931,7 +939,8 @@ def gen_join(g):
         op['comp_op'] = rng.choice(['>=', '>=', '>=', '>', '='])
         if measure != 'OVERLAP':
             op['allow_empty'] = rng.random() < 0.6
-    t = gen_threshold(rng, measure, prof)
+    t = gen_threshold(rng, measure, prof,
+                      fine=op.get('comp_op') in ('>', '='))
     if measure not in ('EDIT_DISTANCE',) and \
             g.case['tokenizers'][op['tok']]['kind'] != 'qgram' and \
             rng.random() < prof['tight'] and \
